@@ -145,7 +145,10 @@ func helperResult(outer scope, v ssa.Value) (ssa.Value, scope, bool) {
 // dataParams: the parameters of the enclosing function whose VALUE (not merely a branch decision) reaches v: through
 // arithmetic, conversions, phis, loads of locals, and loads of elements of parameters or of slices built in the function
 // (every element store into such a slice counts). Control dependence is deliberately ignored.
-func dataParams(v ssa.Value) map[*ssa.Parameter]bool {
+func dataParams(v ssa.Value) map[*ssa.Parameter]bool { return dataParamsOpt(v, false) }
+
+// dataParamsOpt: with lengths set, len(p)/cap(p) of a parameter counts as depending on it.
+func dataParamsOpt(v ssa.Value, lengths bool) map[*ssa.Parameter]bool {
 	out := map[*ssa.Parameter]bool{}
 	seen := map[ssa.Value]bool{}
 	var walk func(v ssa.Value, d int)
@@ -225,7 +228,7 @@ func dataParams(v ssa.Value) map[*ssa.Parameter]bool {
 		case *ssa.Alloc:
 			elemStores(x, d)
 		case *ssa.Call:
-			if b, ok := x.Call.Value.(*ssa.Builtin); ok && (b.Name() == "len" || b.Name() == "cap") {
+			if b, ok := x.Call.Value.(*ssa.Builtin); ok && (b.Name() == "len" || b.Name() == "cap") && !lengths {
 				return // the length of a slice is not one of its element values
 			}
 			for _, a := range x.Call.Args {
